@@ -4,6 +4,7 @@ import (
 	"encoding/base64"
 	"encoding/hex"
 	"fmt"
+	"os"
 	"strings"
 	"sync"
 	"testing"
@@ -394,6 +395,43 @@ func permSequences(t *testing.T, run *ev.Run, stage string) {
 			}
 		}
 		cases = append(cases, sc)
+	}
+
+	// manifest-only updates that move a method's entry into the middle of an
+	// instruction (the operand of the PUSHINT8 each callee method starts with) or
+	// past the end of the script: the update itself must fail, nothing may ever be
+	// executed from such an offset
+	for bi, shift := range []int{1, 2000} {
+		id := fmt.Sprintf("perm-seq/%s/manifest-update-with-method-offset-off-instruction-boundary/%d", stage, bi)
+		if !run.Want(id) {
+			continue
+		}
+		var meths []map[string]any
+		for i, m := range sw.calleeMeths {
+			mm := map[string]any{}
+			for k, x := range m {
+				mm[k] = x
+			}
+			if i == 1 {
+				mm["offset"] = m["offset"].(int) + shift
+			}
+			meths = append(meths, mm)
+		}
+		bad := manifestJSON(sw.callees[0].Name, nil, meths, []permSpec{sw.updPerm})
+		w := io.NewBufBinWriter()
+		emit.AppCall(w.BinWriter, sw.callees[0].Hash, "upd", callflag.All, nil, bad)
+		emit.Opcodes(w.BinWriter, opcode.DROP, opcode.PUSH1)
+		o, err := v.run(&invocation{Script: w.Bytes(), EntryFlags: callflag.All})
+		run.Case(id, true)
+		run.Obs("manifest_updates_with_method_offset_off_boundary_offered", 1)
+		if o != nil && os.Getenv("C16_DEBUG") != "" {
+			fmt.Println("DEBUG bad-offset update:", o.Halted, o.Fault)
+		}
+		if err != nil {
+			violation(stage, "panic-escaped-vm:manifest-update-with-bad-method-offset", id, err.Error(), nil)
+		} else if o.Halted {
+			violation(stage, "update-accepted:method-offset-off-instruction-boundary", id, fmt.Sprintf("ContractManagement.update(nil, manifest) with method %q at offset +%d was accepted", calleeMethods[1].Name, shift), map[string]any{"script": hex.EncodeToString(w.Bytes())})
+		}
 	}
 
 	cnt := &counters{m: map[string]int64{}}
